@@ -91,6 +91,8 @@ class StubsBase:
         b["abs"] = Stub(self.b_abs, "abs")
         b["range"] = Stub(self.b_range, "range")
         b["enumerate"] = Stub(self.b_enumerate, "enumerate")
+        b["next"] = Stub(self.b_next, "next")
+        b["iter"] = Stub(lambda ctx, it: list(self.interp.iterate(it, ctx)), "iter")
         b["sorted"] = Stub(self.b_sorted, "sorted")
         b["reversed"] = Stub(lambda ctx, it: list(reversed(self.interp.iterate(it, ctx))), "reversed")
         b["hasattr"] = Stub(lambda ctx, o, n: self.interp.has_attr(o, n, ctx), "hasattr")
@@ -188,6 +190,18 @@ class StubsBase:
 
     def type_hook(self, v, ctx):
         return None
+
+    _NODEFAULT = object()
+
+    def b_next(self, ctx, it, default=_NODEFAULT):
+        """next() of a generator expression / iterator, modelled as the first element of the (already
+        evaluated, finite) sequence.  Only the first-element use is supported: the model has no iterator state."""
+        items = self.interp.iterate(it, ctx)
+        if items:
+            return items[0]
+        if default is self._NODEFAULT:
+            raise PyExc("StopIteration", "")
+        return default
 
     def b_enumerate(self, ctx, it, start=0):
         sq = self.iterate_sym(it, ctx)
